@@ -217,6 +217,10 @@ def run_property(pid, tier, seed):
         path = os.path.join(wd, "rsbdd_unit.rs")
         with open(path, "w") as f:
             f.write(b.text)
+        shape = b.fns.get("type::BDDEnv", {}).get("norm")
+        if shape != "pub struct BDDEnv { pub nodes : RefCell < FxHashMap < BDD , Rc < BDD > > > , }":
+            raise Undecided("BDDEnv holds state other than the intern table `nodes`; the A7 monitor abstraction (every "
+                            f"RefCell<FxHashMap<BDD,Rc<BDD>>> satisfies table_inv) does not cover it: {shape}")
         # ---- assumption scan
         found = assumption_scan(b.text)
         with open(os.path.join(UNIT, "assumptions.toml"), "rb") as f:
